@@ -222,8 +222,10 @@ class Effects:
                 return first
             if n in PASS_THROUGH and e.args:
                 return self.prov(e.args[0], env, f, ctx)
-            if n == 'os.path.basename':
-                return {'BASENAME'}
+            if n in ('os.path.basename', 'os.listdir'):
+                return {'BASENAME'}          # a bare name, or a list of bare names
+            if n == 'range':
+                return {'INT'}
             if isinstance(e.func, ast.Attribute) and e.func.attr in self.ref_producers:
                 return {'REF'}
             if isinstance(e.func, ast.Name) and e.func.id in self.ref_producers:
@@ -275,7 +277,7 @@ class Effects:
             out = set()
             for v in e.elts:
                 out |= self.prov(v, env, f, ctx)
-            return out or {'EXPR'}
+            return out or (set() if not e.elts else {'EXPR'})     # an empty literal contributes no element
         return {'EXPR'}
 
     def map_tags(self, tags, b, env, f, ctx):
